@@ -11,6 +11,9 @@ import (
 	"verif/checks/c05"
 	"verif/checks/c06"
 	"verif/checks/c09"
+	"verif/checks/c10"
+	"verif/checks/c11"
+	"verif/checks/c12"
 	"verif/engine/core"
 	"verif/gen/keys"
 )
@@ -27,6 +30,9 @@ var checks = map[string]check{
 	"C05": {"exploration", c05.Run},
 	"C06": {"exploration", c06.Run},
 	"C09": {"exploration", c09.Run},
+	"C10": {"model_checking", c10.Run},
+	"C11": {"exploration", c11.Run},
+	"C12": {"model_checking", c12.Run},
 }
 
 func main() {
